@@ -9,7 +9,8 @@ Driver for graph file I/O (C14).
                                  model's lexer maps the text to the rows of the model's row writer
   rgraph fmt ty <text>           `OK <view>` | `ERR <exception>`  (lexer + reader + dag test)
   rtrip  fmt ty <name> <graph>   rgraph of the text of wgraph
-  relabel ty k <nodes> <edges>   k = 0: integer labels, k = 1: string labels (nodes `<#> <str>…`, edges
+  relabel ty k <nodes> <edges>   k = 0: integer labels, k = 1: string labels, k = 2: string labels as the dot
+                                 branch of readGraph treats them (all-digit names → ints) (nodes `<#> <str>…`, edges
                                  `<#> <str> <str> …`): normalize + from_networkx + dag test (ty ≠ bipartite)
   bipnx <#> (label color)… <#> (u v)…   BipartiteGraph.from_networkx; color −1 = missing/invalid
   ack3p                          `OK -` (gml / dot texts: the third-party parsers are not modelled; the
@@ -82,7 +83,7 @@ def handle (opname : String) (a : Args) : Option String :=
       pure (match g with
         | .error e => err e
         | .ok G =>
-          match writeText name ty fmt G, writeGraph ty fmt G with
+          match writeText name ty fmt G, writeGraph name ty fmt G with
           | .ok t, .ok rows =>
             ok ((if lexText fmt t = some rows then "1 " else "0 ") ++ fmtText t)
           | .error e, _ => err e
@@ -103,6 +104,9 @@ def handle (opname : String) (a : Args) : Option String :=
       | 1 => do
         let ns ← listOf chars; let es ← listOf (do let x ← chars; let y ← chars; pure (x, y))
         pure (fmtExcept viewAny (readNx ty (relabelStrs ns es)))
+      | 2 => do
+        let ns ← listOf chars; let es ← listOf (do let x ← chars; let y ← chars; pure (x, y))
+        pure (fmtExcept viewAny (readNx ty (relabelDot ns es)))
       | _ => failure) a
   | "bipnx" => run (do
       let ns ← listOf (do
